@@ -307,6 +307,9 @@ def normalize_url(
         if trailing_slash and not strip_trailing_slash:
             path = path + "/"
 
+    # NOTE: the heuristics below must not depend on how the path is escaped
+    path = safely_unquote_path(path)
+
     # Handling Google AMP suffixes
     if normalize_amp:
         path = AMP_SUFFIXES_RE.sub("", path)
